@@ -244,6 +244,10 @@ def check(P, R, tier):
     check_wrap(P, R, tu)
     check_week(P, R, tu)
     check_dispatch(P, R, tu)
+    # the period lengths the carry loops look up, as far as they are closed forms over a tiny domain: decoded and compared
+    import lentab
+    n = lentab.check(P, R, tu, {"mdays", "mcnt", "bdays", "ydays"}, rule="RF2-closed")
+    R.floor("RF2-closed", "entries of period tables spelled as closed forms", n, 250)
 
 
 LEVEL = ("Decides the common structure of the four carry routines (in-range shortcut not above the shortest period; forward loop "
@@ -252,4 +256,5 @@ LEVEL = ("Decides the common structure of the four carry routines (in-range shor
          "days or one week count, and the dispatch.  That the result is the day exactly n days away is NOT decided: it depends on "
          "the period lengths the loops look up (their tables are C01's) and on the converters.")
 RULE = "obligation = one shortcut / forward loop / backward loop per carry routine, one wrap pair, one week adder, one dispatch case"
-ASSUME = ["period lengths returned by __get_mdays / __get_ydays / __get_mcnt / __get_isowk are right (C01 decides their tables)"]
+ASSUME = ["the cumulative month table behind __get_mdays and the 53-week years behind __get_isowk are right (C01 decides those tables); "
+          "the closed forms on top of them (__get_mdays, __get_mcnt, __get_bdays, __get_ydays) are decoded here (RF2-closed)"]
